@@ -107,6 +107,7 @@ let acn_op (args : string list) : string =
                          | _ -> failwith "bad handler") (List.tl parts) in
     let t = new_trace () in
     let hs = ref hs0 in
+    let ts = ref [] in
     let ni n = string_of_int (int_of_n n) in
     let ev_s e = match e with
       | AcnEvData u -> "d" ^ ni u
@@ -123,6 +124,10 @@ let acn_op (args : string list) : string =
         let changed = (hs' <> !hs) in
         hs := hs';
         let evs = List.rev evs in
+        ts := track_events !ts [] evs;
+        let known = (match List.sort compare (List.map (fun s -> hex_of_bytes s.t_cid ^ "." ^ hex_of_bytes s.t_name ^ "." ^
+                         (if s.t_unis = [] then "-" else String.concat "_" (List.map ni s.t_unis))) !ts) with
+                     | [] -> "-" | l -> String.concat "," l) in
         t.cls <- (if List.exists (fun e -> match e with EvRdm133 _ -> true | _ -> false) evs then "e133"
                   else if List.exists (fun e -> match e with EvLlrp _ -> true | _ -> false) evs then "llrp"
                   else if List.exists (fun e -> match e with EvPage _ -> true | _ -> false) evs then "page"
@@ -132,12 +137,25 @@ let acn_op (args : string list) : string =
         let src_s s = hex_of_bytes s.s_cid ^ "." ^ ni s.s_seq ^ "." ^ dbuf_s s.s_buf in
         let h_s h = "|u" ^ ni h.u_uni ^ ":" ^ dbuf_s h.u_buf ^ ":" ^ ni h.u_ap ^ ":" ^
                     String.concat "," (List.map src_s h.u_srcs) in
-        t.steps <- ("e:" ^ es ^ String.concat "" (List.map h_s hs')) :: t.steps;
-        trace_out t ("e:" ^ es ^ String.concat "" (List.map (fun h -> "|u" ^ ni h.u_uni ^ ":" ^ dbuf_s h.u_buf ^ ":" ^ ni h.u_ap) hs')))
+        t.steps <- ("e:" ^ es ^ String.concat "" (List.map h_s hs') ^ "|k:" ^ known) :: t.steps;
+        trace_out t ("e:" ^ es ^ String.concat "" (List.map (fun h -> "|u" ^ ni h.u_uni ^ ":" ^ dbuf_s h.u_buf ^ ":" ^ ni h.u_ap) hs') ^ "|k:" ^ known))
       dgs with Exit -> ());
     trace_result t "acn"
   | _ -> "bad-args"
 let () = register "acn" acn_op
+
+(* dmpaddr <size> <type> <data>: DecodeAddress on exactly these bytes (capacity = their number) *)
+let () = register "dmpaddr" (fun args ->
+  match args with
+  | [_; size; typ; data] ->
+    let d = bytes_of_hex data in
+    (match run d (decode_address (n_of_int (ios size)) (n_of_int (ios typ)) (n_of_int (List.length d))) with
+     | Hazard h -> "hz=" ^ hazard_s h ^ ";twin=1;class=dmpaddr:hazard"
+     | Done (a, len) ->
+       let o = (match a with None -> "a:null" | Some ((s, i), n) -> "a:" ^ string_of_n s ^ "." ^ string_of_n i ^ "." ^ string_of_n n)
+               ^ "|len:" ^ string_of_n len in
+       "hz=none;twin=1;s0=" ^ o ^ ";o0=" ^ o ^ ";class=dmpaddr:" ^ (match a with None -> "null" | Some _ -> "decoded"))
+  | _ -> "bad-args")
 
 (* Art-Net: payload  artnet <net>,<subnet>,<out uni>,<in uni>,<buffer init>,<merge mode> <datagram>   (universe 16 = port disabled = address 256 in the model) ... *)
 let artnet_op (args : string list) : string =
@@ -145,12 +163,14 @@ let artnet_op (args : string list) : string =
   | _ :: spec :: dgs ->
     let st0 = match String.split_on_char ',' spec with
       | net :: sub :: ou :: iu :: b :: rest ->
-        let ou2, b2 = (match rest with [_; o2; b2] -> (ios o2, b2) | _ -> (16, "none")) in
+        let ou2, b2 = (match rest with _ :: o2 :: b2 :: _ -> (ios o2, b2) | _ -> (16, "none")) in
         let net = ios net land 0x7f and sub = ios sub and ou = ios ou and iu = ios iu in
         { a_net = n_of_int net; a_oa = n_of_int (if ou >= 16 then 256 else ((sub lsl 4) lor (ou land 15)) land 255);
           a_ia = n_of_int (if iu >= 16 then 256 else ((sub lsl 4) lor (iu land 15)) land 255); a_buf = dbuf_of_s b; a_uids = [];
           a_sub = false; a_roc = true;
-          a_ob = n_of_int (if ou2 >= 16 then 256 else ((sub lsl 4) lor (ou2 land 15)) land 255); a_buf2 = dbuf_of_s b2 }
+          a_ob = n_of_int (if ou2 >= 16 then 256 else ((sub lsl 4) lor (ou2 land 15)) land 255); a_buf2 = dbuf_of_s b2;
+          a_from = n_of_int 2; a_ltp = (match rest with m :: _ -> m = "1" | [] -> false);
+          a_s0 = (None, None); a_s1 = (None, None) }
       | _ -> failwith "bad config" in
     let t = new_trace () in
     let st = ref st0 in
@@ -163,6 +183,12 @@ let artnet_op (args : string list) : string =
     let ev_c e = match e with
       | EvTx -> "poll" | EvData _ -> "dmx" | EvDisc _ -> "discover" | EvFlush _ -> "flush" | EvRdm _ -> "rdm" | EvTod _ -> "tod" in
     (try List.iter (fun dg ->
+      (* optional prefix s<k>. : the datagram comes from 10.0.0.(2+k) *)
+      let from, dg = (if String.length dg > 2 && dg.[0] = 's' then
+                        let i = String.index dg '.' in
+                        (2 + ios (String.sub dg 1 (i - 1)), String.sub dg (i + 1) (String.length dg - i - 1))
+                      else (2, dg)) in
+      st := { !st with a_from = n_of_int from };
       let buf, n = mkbuf (int_of_n aN_PACKET_SIZE) (bytes_of_hex dg) in
       match run buf (artnet_handle n !st) with
       | Hazard h -> t.hz <- hazard_s h; raise Exit
@@ -171,8 +197,11 @@ let artnet_op (args : string list) : string =
         st := st';
         t.cls <- (match evs with [] -> if changed then "state" else "drop"
                                 | [e] -> ev_c e | e :: _ -> ev_c e ^ "x" ^ string_of_int (List.length evs)) :: t.cls;
+        (* the harness lists the callbacks first, then the packets sent *)
+        let evs = List.filter (fun e -> e <> EvTx) evs @ List.filter (fun e -> e = EvTx) evs in
         let es = match evs with [] -> "-" | _ -> String.concat "+" (List.map ev_s evs) in
-        t.steps <- (Printf.sprintf "e:%s|b:%s|c:%s|s:%s|r:%s" es (dbuf_s st'.a_buf) (dbuf_s st'.a_buf2) (bool01 st'.a_sub) (bool01 st'.a_roc)) :: t.steps)
+        t.steps <- (Printf.sprintf "e:%s|b:%s|c:%s|s:%s|r:%s" es (dbuf_s st'.a_buf) (dbuf_s st'.a_buf2) (bool01 st'.a_sub) (bool01 st'.a_roc)) :: t.steps;
+        trace_out t (Printf.sprintf "e:%s|b:%s|c:%s" es (dbuf_s st'.a_buf) (dbuf_s st'.a_buf2)))
       dgs with Exit -> ());
     trace_result t "artnet"
   | _ -> "bad-args"
